@@ -385,33 +385,57 @@ def rule_direction(ctx):
         k, ok = signs.check_function(ctx, 'R08.8', cfile, fn)
         n += k
         samples += ok[:1]
-        # catch-up loops: while (<time> < <target>) { ... advance ... } needs an overshoot clamp assigning target - time
+        # catch-up loops: while (S*<time> < S*<target> ...) { ... advance ... } needs an overshoot clamp assigning target - time.
+        # Names are free: the two times are the operands of the loop's own "<" comparison (sign factor stripped).
+        def strip_sign(e):
+            e = strip(e, casts=True)
+            if e.get('kind') == 'BinaryOperator' and e['opcode'] == '*':
+                a_, b_ = strip(e['inner'][0], casts=True), strip(e['inner'][1], casts=True)
+                pa = signs.Pass(fn).run()
+                if pa.cls(a_) == signs.SIGN:
+                    return b_
+                if pa.cls(b_) == signs.SIGN:
+                    return a_
+            return e
         for w in walk(cfront.body(fn)):
             if w.get('kind') != 'WhileStmt':
                 continue
-            cond = render(w['inner'][0]).replace(' ', '')
-            if not (('r.t' in cond) and ('<' in cond) and ('t_needed' in cond or 'r.t*forward' in cond)):
+            advances = [e for e in walk(w['inner'][1]) if e.get('kind') == 'CallExpr' and callee_name(e) in ('reb_integrator_bs_step', 'reb_integrator_ias15_part2')]
+            if not advances:
+                continue
+            lt = None
+            for c_ in walk(w['inner'][0]):
+                if c_.get('kind') == 'BinaryOperator' and c_['opcode'] == '<':
+                    l_, r_ = strip_sign(c_['inner'][0]), strip_sign(c_['inner'][1])
+                    if 'double' in qtype(l_) and 'double' in qtype(r_) and l_.get('kind') in ('DeclRefExpr', 'MemberExpr') and r_.get('kind') in ('DeclRefExpr', 'MemberExpr'):
+                        lt = (render(l_).replace(' ', ''), render(r_).replace(' ', ''))
+                        break
+            if lt is None:
                 continue
             n += 1
+            cur, tgt = lt
             body = w['inner'][1]
-            advances = [e for e in walk(body) if e.get('kind') == 'CallExpr' and callee_name(e) in ('reb_integrator_bs_step', 'reb_integrator_ias15_part2')]
-            anchor(advances, 'sub-step call inside the catch-up loop of %s' % fname)
+            from . import extents
+            L = {k_: v_ for k_, v_ in extents.lets(fn).items() if k_ not in (cur, tgt)}
+            diffs = {'%s-%s' % (tgt, cur), '%s-%s' % (cur, tgt)}
             clamp = False
             for ifs in walk(body):
                 if ifs.get('kind') != 'IfStmt':
                     continue
                 c = strip(ifs['inner'][0])
-                if c.get('kind') != 'BinaryOperator' or c['opcode'] not in ('>', '>='):
+                if c.get('kind') != 'BinaryOperator' or c['opcode'] not in ('>', '>=', '<', '<='):
                     continue
                 for a_ in walk(ifs['inner'][1]):
-                    if is_assign(a_) and a_['opcode'] == '=':
-                        rhs = render(a_['inner'][1]).replace(' ', '').strip('()')
-                        if rhs in ('t_needed-r.t', 'max_dt') and render(a_['inner'][0]).replace(' ', '') in ('dt', 'r.dt'):
+                    if is_assign(a_) and a_['opcode'] == '=' and 'double' in qtype(strip(a_['inner'][0])):
+                        rhs = extents.canon(extents.resolve(render(a_['inner'][1]), L)).replace('fabs', '')
+                        if rhs in diffs:
                             clamp = True
             if not clamp:
                 ctx.report('R08.8', '%s:overshoot:%s' % (fname, callee_name(advances[0])), 'src/%s:%s %s' % (cfile, line_of(w), fname),
-                           'the loop advancing to the target time with %s has no overshoot test (if the next sub-step passes the target, shorten it to target - time): the state is left beyond the step boundary'
-                           % callee_name(advances[0]))
+                           'the loop advancing %s to %s with %s has no overshoot test (if the next sub-step passes the target, shorten it to target - time): the state is left beyond the step boundary'
+                           % (cur, tgt, callee_name(advances[0])))
+            else:
+                samples.append('src/%s:%s %s: catch-up of %s to %s clamps its last sub-step' % (cfile, line_of(w), fname, cur, tgt))
     ctx.covered('R08.8', 'direction typing of time/step comparisons in the catch-up loops, the exit test and the snapshot cadence; overshoot clamp in every catch-up loop', n, floor=20, samples=samples)
 
 
